@@ -29,8 +29,13 @@ MODELS = {
              "SPECIFICATION Spec\nCONSTANTS Keys = {{1, 2, 3, 5, 8{q}}}\n Leftovers = {{\"bogus\", \"mode2\", \"x\"}}\n SkipSort = FALSE\nINVARIANT Deterministic\nCHECK_DEADLOCK FALSE\n",
              {"quick": "", "thorough": ", 13, 21"}),
     "runner": ("---- MODULE MC_runner ----\nEXTENDS Runner\n====\n",
-               "SPECIFICATION Spec\nCONSTANTS N = {q}\nINVARIANTS InOrderOnce NoDanglingAtEnd FatalIsAbort Complete\nPROPERTY Terminates\nCHECK_DEADLOCK FALSE\n",
-               {"quick": 5, "thorough": 6}),
+               "SPECIFICATION Spec\nCONSTANTS N = 5\n NS = {q}\nINVARIANTS InOrderOnce NoDanglingAtEnd FatalIsAbort Complete\nPROPERTY Terminates\nCHECK_DEADLOCK FALSE\n",
+               {"quick": 2, "thorough": 3}),
+    # several iterators alive at once: operations on different slots commute (the product graph is also the source of the
+    # interleavings replayed on the real iterators, stimuli.multi_paths)
+    "itermulti": ("---- MODULE MC_im ----\nEXTENDS MC_IterMulti\n====\n",
+                  "SPECIFICATION Spec\nCONSTANTS N = {q}\n Ks = {{0, 1, 2, 1000000000}}\n NSlots = 3\nINVARIANTS Commute\nPROPERTY Independent\nCHECK_DEADLOCK FALSE\n",
+                  {"quick": 3, "thorough": 5}),
     "resolve": (None, "SPECIFICATION Spec\nCONSTANTS ModeSlice = \"{q}\"\nINVARIANTS Inv_C10 Inv_C13\nCHECK_DEADLOCK FALSE\n",
                 {"quick": "default", "thorough": "all"}),
 }
@@ -68,8 +73,8 @@ NEGATIVE = {
 }
 FOR_PROP = {"C01": ["gencode_i4", "gencode_u4", "gencode_i8"], "C03": ["gencode_i4", "gencode_u4", "gencode_i8"],
             "C04": ["gencode_i4", "gencode_u4"], "C05": ["gencode_i4", "gencode_u4", "gencode_i8"],
-            "C02": ["gencode_i4", "iterimpl_i3", "iterimpl_u3", "runner"], "C06": ["iterimpl_i3", "iterimpl_u3"], "C07": ["iterimpl_i3", "iterimpl_u3", "gencode_i4"],
-            "C08": ["iterimpl_u3"], "C09": ["resolve"], "C10": ["resolve", "parseattr_c10"], "C13": ["resolve", "parseattr_c13"],
+            "C02": ["gencode_i4", "iterimpl_i3", "iterimpl_u3", "runner"], "C06": ["iterimpl_i3", "iterimpl_u3", "itermulti"], "C07": ["iterimpl_i3", "iterimpl_u3", "gencode_i4", "itermulti"],
+            "C08": ["iterimpl_u3", "itermulti"], "C09": ["resolve"], "C10": ["resolve", "parseattr_c10"], "C13": ["resolve", "parseattr_c13"],
             "C11": ["parsevalues", "enumtools_c11"], "C12": ["parsevalues", "enumtools_c12"], "C14": ["parsevalues", "enumtools_c14"]}
 FOR_PROP["C17"] = ["hash"]
 FOR_PROP["C10"].append("enumtools_c10")
